@@ -71,6 +71,9 @@ func (r *runner) eval(c Case) []Problem {
 	}
 	r.res.Count(key, nontrivial)
 	r.res.Hit("case:" + c.Kind)
+	if c.Reenter {
+		r.res.Hit("case:random-with-reentrant-callbacks")
+	}
 	if len(r.res.Samples) < 8 && nontrivial && (r.res.Evaluations%37 == 1 || len(r.res.Samples) < 2) {
 		ls := traceLines(evs)
 		if len(ls) > 40 {
@@ -190,7 +193,7 @@ func main() {
 	}
 	rnd := lib.NewRand(fl.Seed)
 	for i := 0; i < n; i++ {
-		c := Case{Kind: "random", Seed: rnd.U64(), Workers: rnd.Range(1, 4), Ops: rnd.Range(2, 14), Close: rnd.Intn(4) == 0}
+		c := Case{Kind: "random", Seed: rnd.U64(), Workers: rnd.Range(1, 4), Ops: rnd.Range(2, 14), Close: rnd.Intn(4) == 0, Reenter: rnd.Intn(3) == 0}
 		r.eval(c)
 	}
 	res.Note(fmt.Sprintf("forced schedules: %d points x %d ops; random histories: %d", len(Points), len(Ops), n))
